@@ -797,6 +797,7 @@ func (s *muxerStream) rotateSegments(
 	}
 
 	s.segments = append(s.segments, segment)
+	verifHook("rotateSegments:appended")
 
 	s.server.registerPath(
 		segment.getPath(),
